@@ -455,6 +455,8 @@ TOOL_TIMEOUT = 30      # seconds; a tool run that does not return is a violation
 def run_multi(ctx, b, items):
     """multi-schema files: exp2python must return within the time bound, exit 0 and write one module per schema, each of
     which compiles (imports between the modules are outside this property: single-schema inputs)"""
+    imports_written = "from %s import *" in open(os.path.join(B.REPO, "src", "exp2python", "src", "classes_wrapper_python.cc")).read()
+
     def one(it):
         i, (text, names) = it
         d = os.path.join(ctx.work, f"multi{i}")
@@ -476,6 +478,14 @@ def run_multi(ctx, b, items):
             c = subprocess.run([sys.executable, "-B", "-m", "py_compile", f], cwd=d, capture_output=True, text=True, timeout=60)
             if c.returncode != 0:
                 return ("compile-error", f"{f} does not compile: {c.stderr[-200:]!r}")
+        # when the generator writes imports between the modules (fixes/C18-12) and no schema had to be split, every module
+        # must import (the classes it names from other schemas resolve)
+        if imports_written and all(f == owner[f] + ".py" for f in files):
+            code = ("import sys; sys.path.insert(0, %r); sys.path.insert(0, '.'); " % os.path.join(B.REPO, "src", "exp2python", "python")
+                    + "; ".join("import " + n for n in names))
+            c = subprocess.run([sys.executable, "-B", "-c", code], cwd=d, capture_output=True, text=True, timeout=60)
+            if c.returncode != 0:
+                return ("import-error", f"the modules of the file cannot be imported: {c.stderr.strip().splitlines()[-1][:200]!r}")
         return None
     with ThreadPoolExecutor(max_workers=14) as ex:
         res = list(ex.map(one, enumerate(items)))
